@@ -100,6 +100,13 @@ def st_program(draw, max_blocks=6):
     use_init = draw(st.integers(0, 3)) == 0
     init_regs: Dict[str, int] = {}
     prog: List[Any] = []
+    first_label = None
+    if draw(st.integers(0, 3)) == 0:
+        # a label on the very first line (instruction index 0), referred to by a never-taken branch further down
+        first_label = "START"
+        prog.append(["label", first_label])
+        if draw(st.integers(0, 2)) == 0:
+            prog.append(["label", "START_B"])
     counter = [0]
 
     def fresh_label():
@@ -232,6 +239,9 @@ def st_program(draw, max_blocks=6):
         # place some pending forward labels
         while pending_forward and draw(st.integers(0, 1)):
             prog.append(["label", pending_forward.pop(0)])
+    if first_label is not None:
+        prog.append(["bne", [draw(st.integers(0, 3)), None, {"label": first_label}]])
+        prog[-1][1][1] = prog[-1][1][0]  # bne x x START: never taken, but the target must still be instruction 0
     for lab in pending_forward:
         prog.append(["label", lab])  # possibly trailing labels
     if draw(st.integers(0, 2)) == 0:
@@ -563,6 +573,8 @@ def shard(ctx: Ctx) -> None:
             labels.append("consecutive-labels")
         if prog and prog[-1][0] == "label":
             labels.append("trailing-label")
+        if prog and prog[0][0] == "label":
+            labels.append("label-at-instruction-0")
         if info.get("macros"):
             labels.append("macros")
         if info.get("overlap"):
